@@ -305,9 +305,10 @@ class GatedRelay(Relay):
             lab.parked.append(g)
             g.ev.wait()
             kind, out = g.payload if g.payload is not None else lab.choose_outcome(m, rc, attempts)
-            if kind in ('map', 'seq'):
-                vals = out.values() if kind == 'map' else out
-                d = {r: (cls_of(x), reply_of(x)) for r, x in zip(rc, vals)}
+            if kind == 'map':
+                d = {r: (cls_of(out[r]), reply_of(out[r])) for r in rc}
+            elif kind == 'seq':
+                d = {r: (cls_of(x), reply_of(x)) for r, x in zip(rc, out)}
             else:
                 d = {r: (cls_of(out), reply_of(out)) for r in rc}
             lab.log('attempt_end', m, rc, kind, d, attempts)
@@ -594,7 +595,11 @@ class Lab(object):
             kind = self.cfg.get('script_shape', 'map')
             if kind == 'seq':
                 return 'seq', [mk(c, i) for i, c in enumerate(row[:len(rc)])]
-            return 'map', collections.OrderedDict((r, mk(row[i], i)) for i, r in enumerate(rc))
+            items = [(r, mk(row[i], i)) for i, r in enumerate(rc)]
+            if kind == 'map-rev':
+                # a relay may build its mapping in any order (grouped by domain, by completion ...)
+                items.reverse()
+            return 'map', collections.OrderedDict(items)
         prof = self.cfg.get('profile', ['ok', 'temp', 'perm', 'map'])
         if m is not None and m.startswith('b'):
             prof = self.cfg.get('bounce_profile', ['ok', 'ok', 'perm', 'temp'])
@@ -621,7 +626,10 @@ class Lab(object):
         if kind == 'exc':
             return kind, RuntimeError('unexpected relay exception')
         if kind == 'map':
-            return kind, collections.OrderedDict((r, one()) for r in rc)
+            items = [(r, one()) for r in rc]
+            if rnd.random() < 0.5:
+                rnd.shuffle(items)      # mapping order need not follow envelope.recipients
+            return kind, collections.OrderedDict(items)
         if kind == 'seq':
             return kind, [one() for r in rc]
         raise ValueError(kind)
